@@ -648,6 +648,9 @@ def with_decoy(mod, case, seed_str):
             # debug output switched on (config["debug"] and the module flag of the Petri-net translation): printing must
             # not change any result (the runner silences stdout while such a case runs)
             case = dict(case, cfg=dict(case.get("cfg", {}), debug=True), _debug=True)
+        if rng.random() < getattr(mod, "ISO_INPUT", 0.0):
+            # one more variable that nothing reads and that has no update function (an isolated free input)
+            case = dict(case, iso_input=True)
         if "order" not in case and rng.random() < getattr(mod, "ORDER", 0.08):
             # variables declared in a non-alphabetical order (`BooleanNetwork(variables=[...])`; honoured by plain.make_sd)
             case = dict(case, order=[rng.randrange(64) for _ in range(8)])
